@@ -25,6 +25,8 @@ func rulesC04(c *Ctx) {
 	c03ClosedTable(c)
 	c03HalfOpenTable(c)
 	c03StateOwner(c)
+	buildersStore(c, "circuitbreaker")
+	delegatingBuilders(c, "circuitbreaker")
 	ruleFailureResult(c)
 	c.Rule("fresh-executor")
 	c01Self(c)
@@ -51,6 +53,8 @@ func rulesC03(c *Ctx) {
 	c04HalfOpenPermits(c)
 	c.Rule("shared")
 	c12Shared(c)
+	buildersStore(c, "circuitbreaker")
+	delegatingBuilders(c, "circuitbreaker")
 	witnessRules(c, "C03")
 }
 
@@ -1157,9 +1161,41 @@ func c03Stats(c *Ctx) {
 		c.Unresolved("circuitbreaker.(*timedStats).currentBucket", "not found")
 	} else {
 		ev := NewEvaluator(c.P, EvalConfig{MaxVisits: 3})
+		ts := ev.TS
 		ok := true
 		paths := ev.Run(fn)
+		recvS := ev.Param(fn, fn.Params[0].Name())
+		head0 := ev.LoadField(ev.NewState(), recvS, "head")
+		nanos := ev.LoadField(ev.NewState(), recvS, "bucketNanos")
 		for _, p := range paths {
+			// the window advances exactly when clock/bucketNanos moved past the head, and then head becomes that value
+			var now *T
+			for _, e := range p.Events() {
+				if isCall(e, "CurrentUnixNano") {
+					now = e.Res[0]
+				}
+			}
+			if now != nil && head0 != nil && nanos != nil && p.Exit == ExitReturn {
+				newHead := ts.Bin("/", now, nanos, head0.Typ, false)
+				adv := p.State.Facts.Truth(ts, ts.Cmp(">", newHead, head0))
+				finalHead := ev.LoadField(p.State, recvS, "head")
+				nrm := len(eventsWhere(p, func(e *Event) bool { return isCall(e, "remove") }))
+				switch adv {
+				case triT:
+					if finalHead != newHead {
+						ok = false
+						c.Fail(c.fn(fn), c.P.FuncPos(fn), "when time moved to a later bucket the head must become clock/bucketNanos", pathTrace(ev, p))
+					}
+				case triF:
+					if finalHead != head0 || nrm != 0 {
+						ok = false
+						c.Fail(c.fn(fn), c.P.FuncPos(fn), "while time stays within the head bucket nothing may expire and the head must not move", pathTrace(ev, p))
+					}
+				default:
+					ok = false
+					c.Fail(c.fn(fn), c.P.FuncPos(fn), "bucket expiry does not depend on clock/bucketNanos > head", pathTrace(ev, p))
+				}
+			}
 			rm := eventsWhere(p, func(e *Event) bool { return isCall(e, "remove") })
 			rs := eventsWhere(p, func(e *Event) bool { return isCall(e, "reset") })
 			if len(rm) != len(rs) && p.Exit == ExitReturn {
